@@ -31,7 +31,7 @@ pub struct C12;
 const V4: IpAddr = IpAddr::V4(Ipv4Addr::new(192, 0, 2, 10));
 const V6: IpAddr = IpAddr::V6(Ipv6Addr::new(0x2001, 0xdb8, 0, 0, 0, 0, 0, 0x10));
 
-const FAMILIES: u64 = 15;
+const FAMILIES: u64 = 16;
 
 struct Fam {
     name: &'static str,
@@ -170,6 +170,13 @@ fn build(fam: u64, ip: IpAddr, port: u16, ts: Option<TimeoutSettings>, t: &mut T
             let st = ValveState::generate(t, true, false, Some(2400), 4, 4);
             w.add_server(addr, Proto::Udp, Box::new(ValveServer::new(st)));
             Fam { name: "theship", call: call(Entry::TheShip { with_timeout: true }), tcp: false, k: 3 }
+        }
+        15 => {
+            // the auto-detecting Minecraft query against a host that only speaks Bedrock: the Java and
+            // legacy probes are refused, the Bedrock probe (UDP) is where the host can fall silent
+            let host = McHost::generate(t, vec![Variant::Bedrock]);
+            w.add_server(addr, Proto::Udp, Box::new(McUdpServer { host, pings: Vec::new(), outcomes: Vec::new(), attempts: 0 }));
+            Fam { name: "minecraft-auto", call: call(Entry::McAuto { settings: None }), tcp: false, k: 5 }
         }
         _ => {
             // the HTTP game: the real HTTP client over the simulated TCP transport
@@ -486,8 +493,9 @@ impl Prop for C12 {
             (Some(Err(e)), _) => {
                 let allowed = match fault_name {
                     "refused" | "syn-blackholed" => e.kind == GDErrorKind::SocketConnect,
-                    // silence of any kind: a receive-class error (with 1 ns / 1 ms timeouts also without any fault)
-                    _ => is_timeout_class(&e.kind),
+                    // silence of any kind: a receive-class error (with 1 ns / 1 ms timeouts also without any fault);
+                    // the auto-detecting query reports "no variant answered"
+                    _ => is_timeout_class(&e.kind) || (name == "minecraft-auto" && e.kind == GDErrorKind::AutoQuery),
                 };
                 if !allowed {
                     problems.push((
@@ -550,7 +558,7 @@ impl Prop for C12 {
     }
 
     fn rule(&self) -> String {
-        "three of four cases: one of 15 entry-point families (the fifteenth is the HTTP game through the real HTTP client) against a valid model server that falls silent at a drawn point of the exchange (UDP: after k = 0..5 datagrams; TCP: refused, SYN black-holed, accepts then silent, stalls after 1-40 bytes (HTTP: 1-1500, inside status line, headers or body), never closes), IPv4 or IPv6 destination, (read, write, connect) timeouts from {1 ns, 1 ms, 4 s, 1 h} (write and connect also None) or the defaults, retries 0..2; oracle over the history: every socket got the configured read / write timeouts and connect its connect timeout, no blocking call outlasts its timeout in virtual time, total virtual duration <= (retries+2) x steps x timeout + 1 s, error class (silence -> receive class, refusal / black hole -> SocketConnect), request bytes unmodified at the server. Every fourth case drives the re-exported transport layer directly: payload and reply sizes 0..65507 (boundary values and random), receive sizes, UDP / TCP, IPv4 / IPv6, short writes and segmentation: bytes at the peer == bytes sent, received == first min(len, size) bytes. Distinct = distinct event-log hash".to_string()
+        "three of four cases: one of 16 entry-point families (among them the auto-detecting Minecraft query and the HTTP game through the real HTTP client) against a valid model server that falls silent at a drawn point of the exchange (UDP: after k = 0..5 datagrams; TCP: refused, SYN black-holed, accepts then silent, stalls after 1-40 bytes (HTTP: 1-1500, inside status line, headers or body), never closes), IPv4 or IPv6 destination, (read, write, connect) timeouts from {1 ns, 1 ms, 4 s, 1 h} (write and connect also None) or the defaults, retries 0..2; oracle over the history: every socket got the configured read / write timeouts and connect its connect timeout, no blocking call outlasts its timeout in virtual time, total virtual duration <= (retries+2) x steps x timeout + 1 s, error class (silence -> receive class, refusal / black hole -> SocketConnect), request bytes unmodified at the server. Every fourth case drives the re-exported transport layer directly: payload and reply sizes 0..65507 (boundary values and random), receive sizes, UDP / TCP, IPv4 / IPv6, short writes and segmentation: bytes at the peer == bytes sent, received == first min(len, size) bytes. Distinct = distinct event-log hash".to_string()
     }
 
     fn assumptions(&self) -> Vec<String> {
